@@ -30,7 +30,11 @@ def declare(rep):
 
 def whole(desc, owner):
     """is `desc` the whole-collection walker of `owner` (self / other)?"""
-    return ("nodes: [0]" in desc) and (("&*%s.table" % owner) in desc or ("&*%s.0.table" % owner) in desc)
+    if ("nodes: [0]" in desc) and (("&*%s.table" % owner) in desc or ("&*%s.0.table" % owner) in desc):
+        return True
+    # the collection itself used as the iterable (`a.iter().eq(b)` with b: &PrefixSet / &PrefixMap): IntoIterator for a reference
+    # to the collection is its whole walker (constructor rule R03.6)
+    return desc in ("PrefixSet{*%s.0}" % owner, "PrefixMap{*%s}" % owner, "*%s" % owner) or desc.startswith(("PrefixMap{table: *%s.table" % owner, "PrefixSet{PrefixMap{table: *%s.0.table" % owner))
 
 
 def check_clone(ctx, rep, cfg, F, rule="R19.2"):
@@ -82,19 +86,100 @@ def check_clone(ctx, rep, cfg, F, rule="R19.2"):
         rep.bad(rule, short, "missing", "%s not found" % short, kind="unrecognised", config=cfg)
 
 
+def lockstep_hook(F):
+    """A hand-written comparison loop calls next() on both whole-collection walkers: each walker (started at its collection's
+    root) is replaced by an abstract sequence — the k-th next() lazily yields `item_<owner>_k` or ends the sequence (fused)."""
+    from . import c03
+    from ..absint import StructV, RefV, UnkV, IntV, VecV, Cell, OPTION
+
+    def hook(it, callee, fnref, args, n, fr):
+        if not (callee.endswith(" as std::iter::Iterator>::next") or callee.endswith("iter::Iterator::next")) or not args:
+            return NotImplemented
+        v = it.val_force(args[0])
+        while isinstance(v, RefV):
+            v = it.force(v.cell)
+        if not isinstance(v, StructV) or not v.adt.startswith("prefix_trie::"):
+            return NotImplemented
+        st = getattr(v, "_seq", None)
+        if st is None:
+            inner = c03.innermost(it, v)
+            if inner is None:
+                return NotImplemented
+            nodes = inner.fields["nodes"].value
+            desc = repr(inner).replace("?", "")
+            owner = "self" if whole(desc, "self") else "other" if whole(desc, "other") else None
+            if owner is None or not (isinstance(nodes, VecV) and [repr(x) for x in nodes.obj.items] == ["0"]):
+                return NotImplemented
+            st = v._seq = {"owner": owner, "k": 0, "done": False}
+        if st["done"]:
+            return StructV(OPTION, "None", {})
+        st["k"] += 1
+        r = it.choose("seqnext:%s#%d" % (st["owner"], st["k"]), ["N", "S"])
+        it.emit("seq_next", owner=st["owner"], k=st["k"], res=r)
+        if r == "N":
+            st["done"] = True
+            return StructV(OPTION, "None", {})
+        ety = it.ty(n["ty"])["a"][0]
+        nm = "item_%s_%d" % (st["owner"], st["k"])
+        return StructV(OPTION, "Some", {"0": Cell(UnkV(ety, nm), nm)})
+    return hook
+
+
+def check_lockstep(rep, cfg, short, p):
+    """the lock-step form: rounds of (self.next(), other.next()); the answer is decided at the first round that is not
+    (both yield ∧ items equal by their own equality): true iff both sequences end in that round"""
+    rounds = {}
+    for e in p.ev("seq_next"):
+        rounds.setdefault(e["k"], {})[e["owner"]] = e["res"]
+    inp = dict(p.inputs)
+    got = repr(p.result[1])
+    want = None
+    for k in sorted(rounds):
+        r = rounds[k]
+        if set(r) != {"self", "other"}:
+            rep.bad("R19.1", short, "lockstep:unpaired", "%s advances only one of the two walkers in round %d (%s): the sequences are not compared position by position"
+                    % (short, k, r), config=cfg)
+            return
+        if r["self"] == "S" and r["other"] == "S":
+            keys = [q for q in inp if q.startswith("bool:own_eq(") and ("item_self_%d" % k) in q and ("item_other_%d" % k) in q]
+            if not keys:
+                rep.bad("R19.1", short, "lockstep:items-not-compared", "%s does not compare the %d-th items of the two sequences with their own equality" % (short, k), config=cfg)
+                return
+            if not inp[keys[0]]:
+                want = "false"
+                break
+            continue
+        want = "true" if r["self"] == "N" and r["other"] == "N" else "false"
+        break
+    if want is None:
+        rep.bad("R19.1", short, "lockstep:undecided", "%s returns %s before either sequence ended or a pair of items differed" % (short, got), config=cfg)
+    elif got != want:
+        rep.bad("R19.1", short, "lockstep:result", "%s returns %s where the position-by-position comparison of both whole sequences gives %s (rounds: %s)"
+                % (short, got, want, rounds), config=cfg)
+    else:
+        rep.ok("R19.1", short, "lock-step loop over both whole sequences", sample={"rounds": {str(k): v for k, v in rounds.items()}, "result": got} if len(rounds) > 1 else None)
+
+
 def run_config(ctx, rep, cfg, F):
     # ---- R19.1
     for short in ("<PrefixMap as PartialEq>::eq", "<PrefixSet as PartialEq>::eq"):
         if short not in F.short:
             rep.bad("R19.1", short, "missing", "%s not found" % short, kind="unrecognised", config=cfg)
             continue
-        paths = ctx.paths(F, short, OPTS)
+        key = (cfg, "eq;" + short)
+        if key not in ctx._paths:
+            from .. import absint
+            ctx._paths[key] = absint.explore(F, F.short[short], absint.default_args(F, F.short[short]), dict(OPTS, loop_bound=3, hooks={"call": lockstep_hook(F)}))
+        paths = ctx._paths[key]
         C.report_unrecognised(rep, "R19.1", short, paths, F)
         for p in C.complete(paths):
             got = repr(p.result[1])
             inp = dict(p.inputs)
             se = p.ev("seq_eq")
             za = p.ev("zip_all")
+            if p.ev("seq_next") and not se and not za:
+                check_lockstep(rep, cfg, short, p)
+                continue
             if se:
                 e = se[-1]
                 if not (whole(e["a"], "self") and whole(e["b"], "other") or whole(e["a"], "other") and whole(e["b"], "self")):
